@@ -220,8 +220,17 @@ def mk_reader(c, prog, g, cls_name='SgzReader', preload=False, local=True, struc
     if not g.two_d:
         fields['ilines'] = axis_array(c, 'ilines', nI)
         fields['xlines'] = axis_array(c, 'xlines', nX)
+    fields['segy_traceheader_template'] = {}
+    fields['stored_header_keys'] = []
+    vcls = prog.klass('SeismicZfpVersion')
+    vM = c.sym_int('fvM', lo=0, hi=2047, name='file_version.major')
+    vm = c.sym_int('fvm', lo=0, hi=1023, name='file_version.minor')
+    vp = c.sym_int('fvp', lo=0, hi=1023, name='file_version.patch')
+    vdev = c.sym_bool('fvdev', name='file_version.dev')
+    fields['file_version'] = SObj(vcls, dict(major=vM, minor=vm, patch=vp, changes_exist=vdev, encoding=S.enc_version(vM, vm, vp, vdev)))
     o = SObj(cls, fields)
     o.geo = g
+    o.ver = (vM, vm, vp, vdev)
     from pyvc.symex import BoundMethod
     o.fields['_read_containing_chunk_cached'] = BoundMethod(o, cls.find_method('_read_containing_chunk'))
     o.frozen = set(fields) - {'variant_headers', 'include_padding', 'mask'}
@@ -233,6 +242,8 @@ def axis_float(c, name, n):
     z0 = c.sym_float(name + '0', name=name + '[0]')
     dz = c.sym_float(name + '_step', name=name + '_step')
     c.assume(ops_cmp('>', dz, 0))
+    # whole-millisecond start within the 16-bit delay range, interval below 65.536 ms (SEG-Y limits of the properties)
+    c.assume(ops_cmp('>=', z0, -32768), ops_cmp('<=', z0, 32767), ops_cmp('<', dz, 66))
     arr = SArray((n,), lambda idx: ops_binop('+', z0, ops_binop('*', idx[0], dz)), 'float64')
     arr.prog = (z0, dz)
     return arr
@@ -241,3 +252,9 @@ def axis_float(c, name, n):
 def V_real(g, i, x, z):
     """sample of the decoded volume at real coordinates (same term as Vpad: the real extent is a sub-box)"""
     return Vpad(g, i, x, z)
+
+
+def bounded_i32(c, v):
+    """value of an int32 array element: assume its range (array dtype invariant)"""
+    c.assume(ops_cmp('>=', v, -2 ** 31), ops_cmp('<', v, 2 ** 31))
+    return v
